@@ -28,6 +28,7 @@ func init() {
 	wrap("C45", c45AckRules)
 	wrap("C39", c39RawCompareRule)
 	wrap("C24", c24CommitGate)
+	wrap("C37", c37PkBeforeIndexes)
 	Registry["C24"].Patterns = append(Registry["C24"].Patterns, "./libraries/doltcore/env/actions")
 }
 
@@ -201,4 +202,76 @@ func c39RawCompareRule(k *eng.Check) {
 	if n < 1 {
 		k.Unknown("unseal-path-compared-raw", eng.Name(fn), "comparison of the outer path with the decrypted path", "not found")
 	}
+}
+
+// c37PkBeforeIndexes: when a schema is deserialized, the primary-key ordinals are applied before any secondary
+// index is added: an index captures the primary-key tag order at the moment it is created (its key suffix), and
+// SetPkOrdinals does not update indexes that already exist.  Reading the indexes first reloads every secondary
+// index with its primary-key suffix in column-declaration order.
+func c37PkBeforeIndexes(k *eng.Check) {
+	c := k.C
+	top := k.Fn("libraries/doltcore/schema/encoding.deserializeSchemaFromFlatbuffer")
+	if top == nil {
+		return
+	}
+	mAdd := eng.Named(`AddIndexByColTags$`)
+	// SetPkOrdinals applied to the ordinals read from the serialized clustered index (not the default ordinals
+	// schema.NewSchema installs)
+	mSetPk := func(ci ssa.CallInstruction) bool {
+		if !eng.Named(`SetPkOrdinals$`)(ci) {
+			return false
+		}
+		for _, a := range ci.Common().Args {
+			if eng.MentionsDeep(a, eng.IsCall(eng.Static("libraries/doltcore/schema/encoding.deserializeClusteredIndex"))) {
+				return true
+			}
+		}
+		return false
+	}
+	inPkg := func(p string) bool { return p == "libraries/doltcore/schema/encoding" }
+	cl := c.StaticClosure([]*ssa.Function{top}, inPkg, 3)
+	reaches := map[*ssa.Function]bool{}
+	for changed := true; changed; {
+		changed = false
+		for _, f := range cl {
+			if reaches[f] {
+				continue
+			}
+			for _, call := range eng.Calls(f, func(ssa.CallInstruction) bool { return true }, false) {
+				if mAdd(call) || (call.Common().StaticCallee() != nil && reaches[call.Common().StaticCallee()]) {
+					reaches[f] = true
+					changed = true
+				}
+			}
+		}
+	}
+	if !reaches[top] {
+		k.Unknown("pk-ordinals-before-indexes", eng.Name(top), "a path from the schema deserializer to AddIndexByColTags", "not found")
+		return
+	}
+	var okIn func(f *ssa.Function, depth int) (bool, string)
+	okIn = func(f *ssa.Function, depth int) (bool, string) {
+		cuts := c.PassCuts(f, "setpk-dci", mSetPk, 3)
+		for _, call := range eng.Calls(f, func(ssa.CallInstruction) bool { return true }, false) {
+			callee := call.Common().StaticCallee()
+			isTarget := mAdd(call) || (callee != nil && reaches[callee])
+			if !isTarget {
+				continue
+			}
+			tg := eng.NewSet().AddI(call.(ssa.Instruction))
+			if len(eng.Reach(f, nil, tg, cuts)) == 0 {
+				continue // preceded by a successful SetPkOrdinals in this function
+			}
+			if callee != nil && reaches[callee] && !mAdd(call) && depth > 0 {
+				if ok, _ := okIn(callee, depth-1); ok {
+					continue // the callee orders the two steps itself
+				}
+			}
+			return false, c.InstrPos(call.(ssa.Instruction))
+		}
+		return true, ""
+	}
+	ok, pos := okIn(top, 3)
+	k.Require("pk-ordinals-before-indexes", eng.Name(top), "secondary indexes are added to a deserialized schema only after its primary-key ordinals were applied", ok, pos,
+		"an index is created before SetPkOrdinals: it captures the primary-key columns in declaration order and is not updated afterwards")
 }
